@@ -70,10 +70,24 @@ Theorem C03_rootmoves_nonempty :
 Proof. exact getRootMoves_spec. Qed.
 Print Assumptions C03_rootmoves_nonempty.
 
-(** every PV of every info line is non-empty, starts with a root move and is playable move by move (each move is
-    in the legal-move list of the position it is played in); lines of one report start with pairwise distinct
-    moves and carry pairwise distinct multipv numbers (or none) *)
-Theorem C03_pv_playable_multipv_distinct :
+(** every PV of every info line is non-empty, starts with a root move and is playable move by move: each move is
+    in the legal-move list of the position it is played in *)
+Theorem C03_pv_playable :
+  forall (P TT : Type) (probe : TT -> N -> option move) (mk : P -> move -> P) (legalAt : P -> list move)
+         (zh hh : P -> N) (dtm : P -> Z -> option Z) (hmcOf : P -> Z) (wtmOf : P -> bool) (root : P) (cfg : config)
+         (legal sm : list move) (limited tbWin : bool) (prog bad : move -> bool) (ord : move -> Z)
+         (strength : Z) (rnd0 : N) (s : list (event TT)) (b : move) (reps : list (list line)),
+    legalAt root = legal -> NoDup legal -> startMoves legal sm <> [] ->
+    iterativeDeepening P TT probe mk legalAt zh hh dtm hmcOf wtmOf root cfg
+                       (startMoves legal sm) legal limited tbWin prog bad ord strength rnd0 s = IdAnswer b reps ->
+    forall rep l, In rep reps -> In l rep ->
+      l_pv l <> [] /\ playableFrom P mk legalAt root (l_pv l) /\
+      In (firstMove l) (startMoves legal sm) /\ 0 < l_depth l.
+Proof. exact lines_playable. Qed.
+Print Assumptions C03_pv_playable.
+
+(** lines of one report start with pairwise distinct moves and carry pairwise distinct multipv numbers (or none) *)
+Theorem C03_multipv_distinct :
   forall (P TT : Type) (probe : TT -> N -> option move) (mk : P -> move -> P) (legalAt : P -> list move)
          (zh hh : P -> N) (dtm : P -> Z -> option Z) (hmcOf : P -> Z) (wtmOf : P -> bool) (root : P) (cfg : config)
          (legal sm : list move) (limited tbWin : bool) (prog bad : move -> bool) (ord : move -> Z)
@@ -82,22 +96,21 @@ Theorem C03_pv_playable_multipv_distinct :
     iterativeDeepening P TT probe mk legalAt zh hh dtm hmcOf wtmOf root cfg
                        (startMoves legal sm) legal limited tbWin prog bad ord strength rnd0 s = IdAnswer b reps ->
     forall rep, In rep reps ->
-      (forall l, In l rep -> l_pv l <> [] /\ playableFrom P mk legalAt root (l_pv l) /\
-                            In (firstMove l) (startMoves legal sm) /\ 0 < l_depth l) /\
       NoDup (map firstMove rep) /\
       (NoDup (map l_multipv rep) \/ Forall (fun l => l_multipv l = -1) rep).
-Proof. exact reports_ok. Qed.
-Print Assumptions C03_pv_playable_multipv_distinct.
+Proof. exact multipv_distinct. Qed.
+Print Assumptions C03_multipv_distinct.
 
-(** the two named forms of the previous theorem *)
-Theorem C03_pv_playable :
+(** the PV extraction itself: every move taken from the table passed the membership test in the legal-move list of
+    the position it is played in, and the PV starts with the move it was asked for *)
+Theorem C03_pv_extract_playable :
   forall (P TT : Type) (probe : TT -> N -> option move) (mk : P -> move -> P) (legalAt : P -> list move)
          (zh hh : P -> N) (tab : TT) (pos : P) (m : move) (hist : list N) (fuel : nat) (pv : list move),
     In m (legalAt pos) ->
     extractPVMoves P TT probe mk legalAt zh hh fuel tab pos m hist = Some pv ->
     (exists t, pv = m :: t) /\ playableFrom P mk legalAt pos pv.
 Proof. exact pv_playable. Qed.
-Print Assumptions C03_pv_playable.
+Print Assumptions C03_pv_extract_playable.
 
 (** extraction terminates: if the Zobrist hashes lie in a finite set U, |U|+1 iterations suffice and the PV has
     at most |U|+1 moves *)
